@@ -413,9 +413,20 @@ func solveJobs(jobs []oblResult, dir string, timeoutS int, thorough bool) []oblR
 	// An obligation that no solver decided (timeout / unknown, typically on a loaded machine) is tried
 	// once more on its own with three times the time before it is reported as undischarged. A "sat"
 	// answer is never retried.
+	undecided := 0
+	for i := range jobs {
+		if j := &jobs[i]; !j.O.Cover && !j.OK && j.R.Status != "sat" {
+			undecided++
+		}
+	}
 	for i := range jobs {
 		j := &jobs[i]
 		if j.O.Cover || j.OK || j.R.Status == "sat" {
+			continue
+		}
+		if undecided > 3 {
+			// many undecided obligations are not a load effect (a broken invariant leaves a dozen
+			// clauses without proof): no second attempt, they are reported as they are
 			continue
 		}
 		text := queryText(j.VC.Engine.sc, j.O, false)
